@@ -39,6 +39,14 @@ func handPath(rng *rand.Rand, src, dst addr.IA, nextHop netip.AddrPort, idx int)
 		Meta: snet.PathMetadata{Interfaces: []snet.PathInterface{{IA: src, ID: iface.ID(1000 + idx)}, {IA: dst, ID: iface.ID(2000 + idx)}}}}
 }
 
+// v6Ending returns fd00::a.b.c.d for the IPv4 address a.b.c.d.
+func v6Ending(a netip.Addr) netip.Addr {
+	b := [16]byte{0: 0xfd}
+	v4 := a.As4()
+	copy(b[12:], v4[:])
+	return netip.AddrFrom16(b)
+}
+
 func c05SCION(r *ev.Run, rng *rand.Rand, nScripts int) {
 	log := slog.New(slog.DiscardHandler)
 	srvIP, cliIP, otherIP := blockIP(r, 5, 11), blockIP(r, 5, 12), blockIP(r, 5, 13)
@@ -76,6 +84,12 @@ func c05SCION(r *ev.Run, rng *rand.Rand, nScripts int) {
 					pkt.DstIA = c05XIA
 				case "scion: destination host differs":
 					pkt.DstHost = otherIP
+				case "scion: source host is an IPv6 address ending in the server's IPv4 address":
+					pkt.SrcHost = v6Ending(srvIP)
+				case "scion: destination host is an IPv6 address ending in the client's IPv4 address":
+					pkt.DstHost = v6Ending(cliIP)
+				case "scion: source host is the IPv4-mapped form of another host":
+					pkt.SrcHost = netip.AddrFrom16(otherIP.As16())
 				case "scion: source and destination exchanged":
 					pkt.SrcIA, pkt.DstIA, pkt.SrcHost, pkt.DstHost = pkt.DstIA, pkt.SrcIA, pkt.DstHost, pkt.SrcHost
 				}
@@ -114,7 +128,9 @@ func c05SCION(r *ev.Run, rng *rand.Rand, nScripts int) {
 				keep = append(keep, m)
 			}
 		}
-		for _, n := range []string{"scion: source ISD-AS differs", "scion: source host differs", "scion: destination ISD-AS differs", "scion: destination host differs", "scion: source and destination exchanged"} {
+		for _, n := range []string{"scion: source ISD-AS differs", "scion: source host differs", "scion: destination ISD-AS differs", "scion: destination host differs", "scion: source and destination exchanged",
+			"scion: source host is an IPv6 address ending in the server's IPv4 address", "scion: destination host is an IPv6 address ending in the client's IPv4 address",
+			"scion: source host is the IPv4-mapped form of another host"} {
 			keep = append(keep, c05Mut{name: n, forceBad: true})
 		}
 		c05Leg(r, name, p, keep, func(ctx context.Context) (time.Time, time.Duration, error) {
